@@ -37,6 +37,8 @@ CONFIGS = {
     "host-clang-asan": C(HOST, cc="clang-14", opt="-O2"),            # second compiler: different UBSan checks, different code generation
     "small-O3-plain": C(SMALL, san="none", opt="-O3"),               # aggressive optimisation exploits UB the sanitizers may not flag
     "small-msan": C(SMALL, cc="clang-14", san="msan", opt="-O1"),     # uninitialised scalars / heap reads that ASan, UBSan and a zero-folding optimiser hide
+    # block cache with 2 slots, header pool with 3 blocks (capacity hook): for bounded-exhaustive allocation histories (C14)
+    "tiny-caches-asan": dict(C(SMALL), defs=["-DM4RI_VERIF_MMC_NBLOCKS=2", "-DM4RI_VERIF_MZD_T_CACHE_MAX=3"]),
     "small-plain": C(SMALL, san="none", opt="-O2"),
     "small-ts-plain-vg": C(SMALL, caches=0, san="none", opt="-O1", vg=1),
     "host-nosse-plain": C(HOST, sse2=0, caches=0, san="none", opt="-O2"),
@@ -138,6 +140,7 @@ def build(name, verbose=False):
             common.append("-DNDEBUG")
         if cfg["omp"]:
             common.append("-fopenmp")
+        common += cfg.get("defs", [])
         sflags = san_flags(cfg)
         jobs = []
         libobjs = []
